@@ -1,7 +1,7 @@
 CONSTANTS
   NK = 3
-  HMax = 3
-  MaxOps = 4
+  HMax = 2
+  MaxOps = 3
   Full = FALSE
   BucketSize = 2
   LoadNum = 3
